@@ -44,6 +44,24 @@ def reachable(case):
     return out
 
 
+def composite_insertions(case, tr, ent):
+    """(particles, template-sized units of atoms) a composite insertion adds in trial `tr`, from the scripted verdicts"""
+    checks = [bool(c) for c in tr["checks"]]
+    big = {p[0] for p in tr.get("presel", []) if p[1] == "B"}
+    particles = units = 0
+    for r in ent["tree"][1]:
+        ok = False
+        for _ in range(case["objs"][r]["max_attempts"]):
+            if (checks.pop(0) if checks else True):
+                ok = True
+                break
+        if ok:
+            particles += 1
+            units += 2 if r in big else 1
+        big.discard(r)      # a pre-selection is one-shot: used (or dropped) by the member's first turn
+    return particles, units
+
+
 def bookkeeping_violations(case, obs):
     out = []
     k_t = len(case.get("template") or [])
@@ -81,6 +99,14 @@ def bookkeeping_violations(case, obs):
         n_ins = len(added) // k_t if k_t else 0
         if any(p[1] == "B" for p in tr.get("presel", [])) and (ent["tree"][0] == "L" or ent.get("swap")) and added:
             n_ins = 1       # ONE particle of a pre-selected species that is larger than the template
+        if any(p[1] == "B" for p in tr.get("presel", [])) and ent["tree"][0] == "X" and added and k_t:
+            # a species twice the size of the template pre-selected on MEMBERS of a composite exchange move: the first
+            # turn of such a member inserts it (ONE particle of 2*k_t atoms), every other turn inserts the template. Which
+            # turns were vetoed follows from the scripted check_move verdicts (one per attempt, max_attempts per turn)
+            n_ins, units = composite_insertions(case, tr, ent)
+            if units * k_t != len(added):
+                out.append((f"notify:indices-do-not-explain-atom-count:{ts}",
+                            f"trial {k}: {len(added)} atoms added, the scripted verdicts give {units} x {k_t}"))
         n_del = 0
         if removed and xrefs:
             lab_before = b["labels"][xrefs[0]]
